@@ -22,7 +22,11 @@ func init() {
 			"(partition-id-validated) every argument of PartitionByID (which returns nil for unknown ids) is a loop variable bounded by PartitionCount, or compared with PartitionCount on a dominating edge (directly, through a validating helper whose success returns are all guarded, or as the key of a collection validated as a whole), or a parameter all of whose callers do so; " +
 			"(divisor-guard) integer divisions by a run-time quantity are dominated by a zero test; " +
 			"(handler-registry) command names are registered once, none under the bare name 'pubsub'; " +
-			"(explicit-panics) panics reachable from a request handler are confined to a reasoned table. " +
+			"(explicit-panics) panics reachable from a request handler are confined to a reasoned table; " +
+			"(routing-payload-validated) a pushed routing table is applied only after every route was checked to have an owner (Partition.Owner panics on an empty list); " +
+			"(alloc-size-bounded) slice allocations in handler-reachable code take their size from constants or lengths of existing data, never from an unbounded request value; " +
+			"(subscriber-loop-exits-on-read-error) the detached subscriber loop ends when reading a command fails; " +
+			"(size-boundary-agreement) shared with C11: an entry exactly as large as a table is rejected instead of making Put spin. " +
 			"NOT decided: malformed payloads inside arguments (msgpack tables, encoded entries), memory exhaustion, by-design blocking (DM.LOCK deadline), socket-level byte streams (redcon's parser is outside the repository).",
 		Assume: []string{
 			"redcon never delivers a command with an empty argument vector (multibulk count <= 0 is a protocol error; inline commands are appended only when non-empty) and has no recover() around handlers",
@@ -38,6 +42,10 @@ func checkC16(r *core.Run) {
 	c16Divisors(r)
 	c16Registry(r)
 	c16Panics(r)
+	c16RoutingPayload(r)
+	c16AllocSizes(r)
+	c16SubscriberLoop(r)
+	kvSizeBoundaryAgreement(r)
 }
 
 func c16Argv(r *core.Run) {
